@@ -1,7 +1,7 @@
 (* C15 — property theorems only. Each is closed by [exact] of a lemma of Proofs_*.v. *)
 From Coq Require Import List Arith ZArith QArith Qabs Bool Lia Lqa.
-From Gst Require Import lib.QAux lib.LinAlgQ C15.gen.MSS C15.Model C15.ModelOp C15.Spec
-                        C15.Proofs_op C15.Proofs_tile C15.Proofs_proj C15.Proofs_std C15.Proofs_lift.
+From Gst Require Import lib.QAux lib.LinAlgQ C15.gen.MSS C15.Model C15.ModelOp C15.ModelShift C15.ModelKrig C15.ModelConv C15.Spec
+                        C15.Proofs_op C15.Proofs_tile C15.Proofs_proj C15.Proofs_std C15.Proofs_lift C15.Proofs_shift C15.Proofs_krig C15.Proofs_conv.
 Import ListNotations.
 Local Open Scope Q_scope.
 
@@ -248,6 +248,146 @@ Theorem C15_Q_pd : forall n S lam c,
 Proof. exact build_Q_pd. Qed.
 Print Assumptions C15_Q_pd.
 
+(* ================================================================== finite-element assembly of the shift operator *)
+
+(* ShiftOpCs::_buildS on a meshing of full-dimensional simplices with a constant anisotropy (hh = A^T diag(s^2) A),
+   for any value rt >= 0 standing for sqrt(1/det hh): the assembled stiffness matrix is symmetric, positive semi-definite,
+   and its row sums vanish (constants are in its kernel) as soon as the apex ranks are in range *)
+Theorem C15_S_assembled : forall ndim n A s rt meshes sh,
+  0 <= rt -> build_shift ndim n A s rt meshes = Some sh ->
+  fsym n (get (sh_Sraw sh)) /\ fpsd n (get (sh_Sraw sh)) /\
+  (apices_in_range ndim n meshes -> forall i, (i < n)%nat -> sumn n (fun j => get (sh_Sraw sh) i j) == 0).
+Proof. exact shift_raw_props. Qed.
+Print Assumptions C15_S_assembled.
+
+(* the same with a non-stationary anisotropy (one rotation matrix, one set of scales and one factor rt >= 0 per mesh) *)
+Theorem C15_S_assembled_nonstationary : forall ndim n params meshes sh,
+  Forall (fun p => 0 <= snd p) params -> build_shift_ns ndim n params meshes = Some sh ->
+  fsym n (get (sh_Sraw sh)) /\ fpsd n (get (sh_Sraw sh)) /\
+  (apices_in_range ndim n meshes -> forall i, (i < n)%nat -> sumn n (fun j => get (sh_Sraw sh) i j) == 0).
+Proof. exact shift_ns_props. Qed.
+Print Assumptions C15_S_assembled_nonstationary.
+
+(* the final scaling S <- D S D keeps symmetry and positivity, whatever the diagonal D (TildeC^-1/2 in the code) *)
+Theorem C15_S_scaled : forall n d Sr,
+  (fsym n (get Sr) -> fsym n (get (scaled_S n d Sr))) /\ (fpsd n (get Sr) -> fpsd n (get (scaled_S n d Sr))).
+Proof. intros. split; [apply scaled_S_sym|apply scaled_S_psd]. Qed.
+Print Assumptions C15_S_scaled.
+
+(* Markov coefficients of a Matern structure: binomial coefficients, non-negative, c_0 = 1 *)
+Theorem C15_markov_coeffs : forall p, coeffs_nonneg (markov_coeffs p) /\ nth 0 (markov_coeffs p) 0 == 1 /\ length (markov_coeffs p) = S p.
+Proof. intro p. split; [apply markov_nonneg|]. split; [apply markov_c0|]. unfold markov_coeffs. rewrite map_length, seq_length. reflexivity. Qed.
+Print Assumptions C15_markov_coeffs.
+
+(* hence, with no hypothesis on S: the precision matrix Q = Lambda P(S) Lambda of a Matern model (nu + d/2 = p integer)
+   on a modelled meshing is symmetric positive definite as soon as no Lambda_i vanishes *)
+Theorem C15_Q_spd_matern : forall ndim n A s rt meshes sh d lam p,
+  0 <= rt -> build_shift ndim n A s rt meshes = Some sh ->
+  (forall i, (i < n)%nat -> ~ vget lam i == 0) ->
+  let Qm := build_Q n (scaled_S n d (sh_Sraw sh)) lam (markov_coeffs p) in
+  fsym n (get Qm) /\ fpd n (get Qm).
+Proof. exact matern_Q_spd. Qed.
+Print Assumptions C15_Q_spd_matern.
+
+(* binomial theorem for the operator: sum_k C(p,k) S^k = (I + S)^p, so the assembled precision matrix of a Matern structure is
+   Q_ij = Lambda_i ((I + S)^p)_ij Lambda_j *)
+Theorem C15_Q_matern_binomial : forall n S lam p i j, (i < n)%nat -> (j < n)%nat ->
+  get (build_Q n S lam (markov_coeffs p)) i j == vget lam i * fpow n (IplusA (get S)) p i j * vget lam j.
+Proof. exact matern_Q_entries. Qed.
+Print Assumptions C15_Q_matern_binomial.
+
+(* lumped masses: positive at every apex of a non-degenerate mesh, and they add up to rt x the volume of the meshing in
+   every dimension (rt stands for sqrt(1/det hh); the volume of a simplex is |det M| / ndim!) *)
+Theorem C15_mass_is_volume : forall ndim n A s rt meshes sh,
+  build_shift ndim n A s rt meshes = Some sh -> apices_in_range ndim n meshes ->
+  sumn n (fun i => vget (sh_tildeC sh) i) == rt * lsumQ (map (fun m => elem_absdet ndim (snd m) / factq ndim) meshes).
+Proof. exact build_shift_mass. Qed.
+Print Assumptions C15_mass_is_volume.
+Theorem C15_mass_positive : forall n nc els i e a,
+  (i < n)%nat -> Forall (fun e => 0 <= e_ratio e) els -> In e els -> (a < nc)%nat -> nth a (e_apex e) 0%nat = i -> 0 < e_ratio e ->
+  0 < vget (tildeC n nc els) i.
+Proof. exact tildeC_pos. Qed.
+Print Assumptions C15_mass_positive.
+(* Regression: before commit 080445d32 of /repo, ShiftOpCs::_buildS divided the mass by 6 (and the stiffness by 2) whatever the
+   dimension ([tildeC_old]).  On the unit segment with the unit metric the old masses add up to 1/3, the repaired ones to the
+   length 1.  The witness is kept in corpus/C15.sx (keys shiftop:lumped-mass-not-the-mesh-volume:1d, :3d). *)
+Theorem C15_mass_old_constants_080445d32 :
+  let els := [{| e_apex := [0; 1]%nat; e_E := []; e_ratio := 1 |}] in
+  sumn 2 (fun i => vget (tildeC_old 2 2 els) i) == 1 # 3 /\ sumn 2 (fun i => vget (tildeC 2 2 els) i) == 1.
+Proof. vm_compute. split; reflexivity. Qed.
+Print Assumptions C15_mass_old_constants_080445d32.
+
+(* ================================================================== projection matrix as a linear map, kriging system *)
+
+(* mesh2point and point2mesh are transposes of each other: <A v, y> = <v, A^T y> for all v, y *)
+Theorem C15_proj_adjoint : forall n rows v y,
+  Forall (cols_in n) rows ->
+  fdot (length rows) (vget y) (vget (mesh2point rows v)) == fdot n (vget v) (vget (point2mesh n rows y)).
+Proof. exact mesh2point_point2mesh_adjoint. Qed.
+Print Assumptions C15_proj_adjoint.
+
+(* the posterior precision Q + A^T R^-1 A is positive definite when Q is and the data variances are positive *)
+Theorem C15_kriging_matrix_pd : forall n Qm rows var,
+  fpd n (get Qm) -> (forall k, (k < length rows)%nat -> 0 < vget var k) -> fpd n (get (krig_matrix n Qm rows var)).
+Proof. exact krig_matrix_pd. Qed.
+Print Assumptions C15_kriging_matrix_pd.
+
+(* the conditional mean returned by the model solves (Q + A^T R^-1 A) z = A^T R^-1 y exactly, and it is the only solution:
+   the implementation's Cholesky and conjugate-gradient results are compared with it *)
+Theorem C15_kriging_solution : forall n Qm rows var y z,
+  krig_solve n Qm rows var y = Some z ->
+  (forall i, (i < n)%nat -> fmv n (get (krig_matrix n Qm rows var)) (vget z) i == vget (krig_rhs n rows var y) i) /\
+  (fpd n (get Qm) -> (forall k, (k < length rows)%nat -> 0 < vget var k) ->
+   forall w, (forall i, (i < n)%nat -> fmv n (get (krig_matrix n Qm rows var)) w i == vget (krig_rhs n rows var y) i) ->
+   forall i, (i < n)%nat -> w i == vget z i).
+Proof.
+  intros n Qm rows var y z Hs. split; [exact (krig_solve_correct n Qm rows var y z Hs)|].
+  intros HQ Hv w Hw. exact (krig_solution_unique n Qm rows var y z w HQ Hv Hs Hw).
+Qed.
+Print Assumptions C15_kriging_solution.
+
+(* ================================================================== ProjConvolution *)
+
+(* the vertical convolution and its transpose are adjoint as soon as every shifted index falls in the vertex vector *)
+Theorem C15_convolution_adjoint : forall shift conv count nv v y,
+  shifts_in shift (length conv) count nv ->
+  fdot count (vget y) (vget (convolve shift conv count v)) == fdot nv (vget v) (vget (convolveT shift conv count nv y)).
+Proof. exact conv_adjoint. Qed.
+Print Assumptions C15_convolution_adjoint.
+
+(* the whole ProjConvolution (vertical convolution, then the horizontal projection slice by slice) and its transpose are adjoint *)
+Theorem C15_proj_convolution_adjoint : forall rows sliceR nz nvertex shift conv v y,
+  Forall (cols_in sliceR) rows -> shifts_in shift (length conv) (sliceR * nz) nvertex ->
+  fdot (nz * length rows) (vget y) (vget (pc_mesh2point rows sliceR nz shift conv v)) ==
+  fdot nvertex (vget v) (vget (pc_point2mesh rows sliceR (length rows) nz nvertex shift conv y)).
+Proof. exact pc_adjoint. Qed.
+Print Assumptions C15_proj_convolution_adjoint.
+(* <A v, y> = <v, A^T y> for any matrix: in particular for the block matrix of projections of ProjMulti *)
+Theorem C15_adjoint_any_matrix : forall n m (A : fmat) (v y : fvec),
+  fdot m y (fun k => sumn n (fun c => A k c * v c)) == fdot n v (fun c => sumn m (fun k => A k c * y k)).
+Proof. exact adjoint_dense. Qed.
+Print Assumptions C15_adjoint_any_matrix.
+
+(* the index shifts are j x (size of a horizontal slice): every index read by the convolution of a slice-stacked vector falls
+   in the vertex vector, whatever the number of seismic samples and the length of the wavelet *)
+Theorem C15_conv_shift : forall nxR nz size sliceR,
+  C16.Model.prodZ nxR = Z.of_nat sliceR -> (1 <= size)%nat ->
+  (forall j, (j < size)%nat -> nth j (pc_shift nxR (Z.of_nat nz) size) 0%Z = (Z.of_nat j * Z.of_nat sliceR)%Z) /\
+  shifts_in (pc_shift nxR (Z.of_nat nz) size) size (sliceR * nz) (sliceR * (nz + size - 1)).
+Proof.
+  intros nxR nz size sliceR Hs Hsz. split; [intros j Hj; rewrite pc_shift_nth by exact Hj; rewrite Hs; reflexivity|].
+  apply pc_shift_in; assumption.
+Qed.
+Print Assumptions C15_conv_shift.
+(* Regression: before commit ffc232cc2 of /repo, _buildShiftVector computed the shifts from the ranks of nodes above the centre of
+   the resolution grid ([pc_shift_old]): right on an ordinary grid, wrong when the grid has fewer seismic samples than the wavelet is
+   long (3x3 slices, nz = 1, wavelet of 5: 0, 9, 18, -23, -23).  Witness kept in corpus/C15.sx (key proj-convolution:shift-vector). *)
+Theorem C15_conv_shift_old_ffc232cc2 :
+  pc_shift_old [3; 3]%Z 1 5 = [0; 9; 18; -23; -23]%Z /\ pc_shift [3; 3]%Z 1 5 = [0; 9; 18; 27; 36]%Z /\
+  pc_shift_old [3; 2]%Z 5 3 = pc_shift [3; 2]%Z 5 3.
+Proof. vm_compute. repeat split; reflexivity. Qed.
+Print Assumptions C15_conv_shift_old_ffc232cc2.
+
 (* ================================================================== non-vacuity *)
 (* a 4x3 grid rotated by the matrix (3/5 -4/5; 4/5 3/5), polarized, one node masked: an interior sample is accepted in the
    second simplex of its cell with weights (3/8, 1/8, 1/2) and a sample of a masked cell has no row *)
@@ -311,4 +451,27 @@ Proof.
     + intros i Hi. destruct i as [|[|[|?]]]; try lia; vm_compute; discriminate.
   - apply C15_Q_symmetric; [discriminate|exact ex_S_sym].
   - vm_compute. reflexivity.
+Qed.
+
+(* the unit square cut in two triangles, anisotropy (scales 2 and 1, rotation 3-4-5), Matern p = 2: the operator is built,
+   Q is symmetric positive definite by the unconditional theorem, and the kriging system of two data has its solution *)
+Definition ex_fe_meshes : list (list nat * list (list Q)) :=
+  [([0; 1; 2]%nat, [[0; 0]; [1; 0]; [0; 1]]); ([2; 1; 3]%nat, [[0; 1]; [1; 0]; [1; 1]])].
+Definition ex_A : mat := [[3 # 5; - (4 # 5)]; [4 # 5; 3 # 5]].
+Example C15_nonvacuous_assembly :
+  exists sh, build_shift 2 4 ex_A [2; 1] (1 # 2) ex_fe_meshes = Some sh /\
+    apices_in_range 2 4 ex_fe_meshes /\
+    sumn 4 (fun i => vget (sh_tildeC sh) i) == (1 # 2) * 1 /\
+    let Qm := build_Q 4 (scaled_S 4 [1; 2; 2; 1] (sh_Sraw sh)) [1; 1; 2; 1] (markov_coeffs 2) in
+    fsym 4 (get Qm) /\ fpd 4 (get Qm) /\
+    exists z, krig_solve 4 Qm [[(0%Z, 1 # 2); (1%Z, 1 # 2)]; [(3%Z, 1)]] [1 # 4; 1 # 4] [1; -1] = Some z.
+Proof.
+  eexists. split; [vm_compute; reflexivity|]. split; [|split; [|split; [|split]]].
+  - constructor; [|constructor; [|constructor]]; intros a Ha; destruct a as [|[|[|?]]]; cbn in *; lia.
+  - vm_compute. reflexivity.
+  - apply (C15_Q_spd_matern 2 4 ex_A [2; 1] (1 # 2) ex_fe_meshes _ [1; 2; 2; 1] [1; 1; 2; 1] 2); [lra|vm_compute; reflexivity|].
+    intros i Hi. destruct i as [|[|[|[|?]]]]; try lia; vm_compute; discriminate.
+  - apply (C15_Q_spd_matern 2 4 ex_A [2; 1] (1 # 2) ex_fe_meshes _ [1; 2; 2; 1] [1; 1; 2; 1] 2); [lra|vm_compute; reflexivity|].
+    intros i Hi. destruct i as [|[|[|[|?]]]]; try lia; vm_compute; discriminate.
+  - vm_compute. eexists. reflexivity.
 Qed.
